@@ -362,6 +362,18 @@ def n_nan(ex, callee, args, m):
     return VF.NaN()
 
 
+def n_elem_arith(op):
+    """arithmetic performed in the (generic) ELEMENT type before any cast to f64: the real result, plus a record — for an integer
+    element type the operation can overflow, which the real-number reading cannot show (checked separately, see family.elem_type_pass)"""
+    def f(ex, callee, args, m):
+        a, b = _deref(ex, args[0]), _deref(ex, args[1])
+        if not hasattr(ex, "elem_ops"):
+            ex.elem_ops = []
+        ex.elem_ops.append((ex.pc, op, a, b, callee))
+        return {"mul": f_mul, "add": f_add, "sub": f_sub}[op](a, b)
+    return f
+
+
 NATIVES = [
     (N(r"^<Self as (?:tea_core::prelude::)?IterBasic>::vapply_n::<"), n_vapply_n),
     (N(r"^<Map<std::ops::RangeInclusive<usize>, \{closure@[^}]*\}> as (?:tea_core::prelude::)?IterBasic>::vapply_n::<"), n_vapply_n),
@@ -377,6 +389,9 @@ NATIVES = [
     (N(r"^<f64 as (?:tea_core::prelude|tea_dtype)::Cast<O>>::cast$"), n_identity),
     (N(r"^<<T as (?:tea_core::prelude|tea_dtype)::IsNone>::Inner as num_traits::Zero>::zero$"), n_zero),
     (N(r"^<<T as (?:tea_core::prelude|tea_dtype)::IsNone>::Inner as Add>::add$"), n_add),
+    (N(r"^<(?:<T as (?:tea_core::prelude|tea_dtype)::IsNone>::Inner|T) as Mul>::mul$"), n_elem_arith("mul")),
+    (N(r"^<T as Add>::add$"), n_elem_arith("add")),
+    (N(r"^<(?:<T as (?:tea_core::prelude|tea_dtype)::IsNone>::Inner|T) as Sub>::sub$"), n_elem_arith("sub")),
     (N(r"^<T2? as (?:tea_core::prelude|tea_dtype)::IsNone>::not_none$"), n_not_none),
     (N(r"^<T2? as (?:tea_core::prelude|tea_dtype)::IsNone>::is_none$"), n_is_none),
     (N(r"^<T2? as (?:tea_core::prelude|tea_dtype)::IsNone>::unwrap$"), n_unwrap),
